@@ -130,7 +130,7 @@ def c12(tier, seed):
     hist = Stage('history', mc=('HistoryMC', 'History_%s.cfg' % t), emit=('HistoryMC', 'History_%s_emit.cfg' % t),
                  driver='history', trace=('DispatcherTrace', 'DispatcherTrace.cfg'), nontrivial=lambda tr: len(tr['ev']) >= 3)
     return dict(stages=[disp_stage('c12_' + t), hist],
-                rule='(plus: all histories over a 12-class request corpus on ONE dispatcher with middlewares and generic + per-code '
+                rule='(plus: all histories over a 14-class request corpus (incl. a second code raised through the same error class and a batch of nothing but notifications) on ONE dispatcher with middlewares and generic + per-code '
                      'handlers - the chain and the handler table are the same for every request) all middleware stacks of length 0..%s over {pass, short, rewriteReq, rewriteResp} x 9 error-handler '
                      'tables x 12 request kinds x {sync, async}; non-trivial = a middleware or handler event was recorded'
                      % ('2 (+ length 3 on a reduced product)' if tier == 'quick' else '3'),
@@ -252,13 +252,13 @@ def c08(tier, seed):
                               driver='client', trace=('ClientTrace', 'ClientTrace.cfg'),
                               deviations={'ServerOrderResults': 'ClientTrace_dev_ServerOrderResults.cfg'},
                               nontrivial=lambda tr: len(tr['ev']) >= 2)],
-                rule='(batch requests filled in four ways incl. non-strict objects, wrapper objects that made a round trip before, ids of an invalid JSON type that compare equal to the request id) the server as an adversary: for batches of calls (+ notifications) EVERY response array of length 0..4 over '
+                rule='(batch requests filled in six ways incl. non-strict objects and objects that grew after a first round trip, a notification as the first call, wrapper objects that made a round trip before, ids of an invalid JSON type that compare equal to the request id) the server as an adversary: for batches of calls (+ notifications) EVERY response array of length 0..4 over '
                      'the element alphabet (own ids in any order / repeated / missing, the id as a string, a foreign id, null ids, '
                      'results and errors, malformed elements), batch-level error objects, non-JSON and scalar bodies; for single '
                      'calls every id relation x body; x strict on/off; every scenario runs on the sync AND the async client; '
                      'non-trivial = an accepted batch response whose positional order was observed',
-                assumptions=ASSUME_CLIENT + ['non-strict mode and null-id elements inside a response array are explicit '
-                                             'don\'t-care regions for the positional attribution (DESIGN 3.3)'],
+                assumptions=ASSUME_CLIENT + ['non-strict mode is an explicit don\'t-care region for the positional attribution; with null-id elements in the array '
+                                             '(strict mode) the answered calls come first in call order, the place of the null-id elements is open (DESIGN 3.3)'],
                 exhaustive=True)
 
 
@@ -285,10 +285,10 @@ def c07(tier, seed):
                               nontrivial=lambda tr: len(tr['ev']) >= 3), twins_stage(t)] + amqp_stages(tier),
                 rule='(extension: the aio_pika client backend and server integration over an in-memory broker - every delivery order of '
                      'requests and replies for <= 2 concurrent calls / notifications on one client, shared or exclusive result queues, stray '
-                     'replies, close() while calls wait; AmqpRpc.tla) client programs in every notation (call, __call__, proxy attribute, hand-built send, notify, batch add / '
+                     'replies, requests of a foreign producer (a call without reply queue, undecodable bytes), close() while calls wait; AmqpRpc.tla) client programs in every notation (call, __call__, proxy attribute, hand-built send, notify, batch add / '
                      '__call__ / proxy / __getitem__, batch notify mixes) x methods that return / raise a registered typed error / '
                      'an unregistered code / an arbitrary exception x no / positional / named arguments x 4 id generators x strict '
-                     'on/off x sync/async client x sync/async dispatcher (full product for single calls, 4 combinations for '
+                     'on/off x sync/async client x sync/async dispatcher (full product for single calls, 7 combinations - both client halves for two of the generators - for '
                      'batches of length 1..%d); non-trivial = the request reached the dispatcher and the caller got an outcome'
                      % (3 if tier == 'quick' else 4),
                 assumptions=ASSUME_CLIENT + ['"the value a direct invocation returns" is fixed by construction of the registered '
@@ -447,7 +447,7 @@ def c13(tier, seed):
         Stage('retention', driver='retention', trace=('HistoryTrace', 'HistoryTrace.cfg'), extra_scenarios=retention,
               deviations={'ViewSignatureCache': 'HistoryTrace_dev_ViewSignatureCache.cfg'},
               nontrivial=lambda tr: len(tr['ev']) >= 10)],
-        rule='(a) ALL histories of length %d over a 12-class request corpus and over 8 calls to look-alike validated methods (same function name and parameter names, different annotations / schemas) (calls, notifications, every failure class, batches, '
+        rule='(a) ALL histories of length %d over a 14-class request corpus and over 8 calls to look-alike validated methods (same function name and parameter names, different annotations / schemas) (calls, notifications, every failure class, batches, '
              'rejected documents) on ONE dispatcher with middlewares and generic + per-code error handlers (sync / async '
              'alternating): every single dispatch is validated by TLC against Dispatcher.tla, i.e. its reply may depend on its '
              'own text only; (b) N in {1, 10, %d} dispatches with a fresh context object each for function methods (context by '
